@@ -510,13 +510,17 @@ func ruleBind(c *Ctx, a *reloadAnchors) {
 			}
 		}
 		if st.svc == nil && st.list != nil {
-			if mk := originCall(c, st.list, "service.NewCipherList", mainM(c).name(mainM(c).newList)); mk != nil {
+			ctorNames := []string{"service.NewCipherList"}
+			for nm := range mainM(c).listCtors {
+				ctorNames = append(ctorNames, nm)
+			}
+			if mk := originCall(c, st.list, ctorNames...); mk != nil {
 				if carriedAcrossIterations(c, st.list, mk) {
 					st.stale = "key list"
 				}
 				st.mk, st.mkAt, st.list = mk, mk, nil
 				st.mkLoops = append(st.mkLoops, enclosing(mk)...)
-				if eng.CalleeName(&mk.Call) == mainM(c).name(mainM(c).newList) {
+				if mainM(c).listCtors[eng.CalleeName(&mk.Call)] && len(mk.Call.Args) > 0 {
 					st.keyInput = mk.Call.Args[0]
 				} else {
 					for _, r := range *mk.Referrers() {
@@ -671,13 +675,27 @@ func ruleBind(c *Ctx, a *reloadAnchors) {
 			continue
 		}
 		n := eng.CalleeName(&call.Call)
-		if n != "service.NewCipherList" && n != mainM(c).name(mainM(c).newList) {
+		if n != "service.NewCipherList" && !mainM(c).listCtors[n] {
 			continue
 		}
+		// creation sites are the outermost ones: a NewCipherList inside a list constructor is that constructor's business
+		if mainM(c).listCtors[eng.CalleeNameOf(eng.Root(call.Parent()))] {
+			continue
+		}
+		isCtorCall := func(v ssa.Value) bool {
+			cc, _, ok := eng.AsResult(v)
+			if !ok {
+				return false
+			}
+			nm := eng.CalleeName(&cc.Call)
+			return (nm == "service.NewCipherList" || mainM(c).listCtors[nm]) && !mainM(c).listCtors[eng.CalleeNameOf(eng.Root(cc.Parent()))]
+		}
+		oo := deepF
+		oo.Stop = isCtorCall
 		uses := 0
 		for _, c2 := range sreg.Calls() {
 			if wc, ok := c2.(*ssa.Call); ok && eng.CalleeName(&wc.Call) == "service.WithCiphers" {
-				if p.AnyFrom(wc.Call.Args[0], deepF, func(v ssa.Value) bool { cc, _, ok := eng.AsResult(v); return ok && cc == call }) {
+				if p.AnyFrom(wc.Call.Args[0], oo, func(v ssa.Value) bool { cc, _, ok := eng.AsResult(v); return ok && cc == call }) {
 					uses++
 				}
 			}
@@ -955,10 +973,39 @@ func ruleDedup(c *Ctx, a *reloadAnchors) {
 		}
 		// returned CipherList was Update()d with the list pushed to
 		okU := false
-		for _, cl := range eng.Calls(f) {
-			if uc, ok := cl.(*ssa.Call); ok && uc.Call.IsInvoke() && uc.Call.Method.Name() == "Update" {
-				if sameOrigin(c, uc.Call.Value, r.Results[0]) && sameOrigin(c, uc.Call.Args[0], push.Call.Args[0]) {
-					okU = true
+		for _, g := range regFns {
+			for _, cl := range eng.Calls(g) {
+				uc, ok := cl.(*ssa.Call)
+				if !ok || !uc.Call.IsInvoke() || uc.Call.Method.Name() != "Update" {
+					continue
+				}
+				if g == f {
+					if sameOrigin(c, uc.Call.Value, r.Results[0]) && sameOrigin(c, uc.Call.Args[0], push.Call.Args[0]) {
+						okU = true
+					}
+					continue
+				}
+				// in a list constructor called here (newCipherListFromEntries(entries)): what is returned is that call's
+				// result, the list updated is the one created there, and the entries handed in are the list pushed to
+				for _, cl2 := range eng.Calls(f) {
+					hc, isC := cl2.(*ssa.Call)
+					if !isC || hc.Call.StaticCallee() != g {
+						continue
+					}
+					retFromCall := p.AnyFrom(r.Results[0], eng.Plain, func(v ssa.Value) bool { return v == ssa.Value(hc) })
+					recvFresh, _ := p.AllFrom(uc.Call.Value, eng.Plain, func(v ssa.Value) bool {
+						cc, _, ok := eng.AsResult(v)
+						return ok && eng.CalleeName(&cc.Call) == "service.NewCipherList" && cc.Parent() == g
+					})
+					argIsParam := -1
+					for i, pa := range g.Params {
+						if p.AnyFrom(uc.Call.Args[0], eng.Plain, func(v ssa.Value) bool { return v == ssa.Value(pa) }) {
+							argIsParam = i
+						}
+					}
+					if retFromCall && recvFresh && argIsParam >= 0 && argIsParam < len(hc.Call.Args) && sameOrigin(c, hc.Call.Args[argIsParam], push.Call.Args[0]) {
+						okU = true
+					}
 				}
 			}
 		}
